@@ -18,7 +18,8 @@ HEAD = "[Tabulation]\ntarget : %s\ncutoff : 5.0\nnr : 6\ncutoff_rho : 5.0\nnrho 
 
 
 def norm(k):
-  return "".join(c for c in k.strip() if c not in " \t")
+  # the normal form of a key for the purpose of 'the same thing': no white space of any kind
+  return "".join(k.split())
 
 
 def outcome(text):
@@ -36,7 +37,7 @@ def outcome(text):
     logging.disable(logging.NOTSET)
 
 
-PAIR_KEYS = ["A-B", "A - B", "B-A", "B -A", "A-B ", "A-\tB", "A-C", "A-A", "A - A", "B-B"]
+PAIR_KEYS = ["A-B", "A - B", "B-A", "B -A", "A-B ", "A-\tB", "A-C", "A-A", "A - A", "B-B", "A-\xa0B", "A\x0b-B", "B-\u2009A"]
 
 
 def pair_same(k1, k2):
@@ -54,7 +55,7 @@ def _pair_ok(k1, k2):
 
 def pair_keys(k1: int, k2: int) -> bool:
   """
-  pre: 0 <= k1 < 10 and 0 <= k2 < 10
+  pre: 0 <= k1 < 13 and 0 <= k2 < 13
   post: _
   """
   # a pair may be defined once, in either species order, however the key is spaced
@@ -63,7 +64,7 @@ def pair_keys(k1: int, k2: int) -> bool:
     return _pair_ok(a, b)
 
 
-DENS_KEYS = ["A->B", "A -> B", "A->B ", "A->\tB", "B->A", "A->A", "B->B", "B -> B"]
+DENS_KEYS = ["A->B", "A -> B", "A->B ", "A->\tB", "B->A", "A->A", "B->B", "B -> B", "A->\xa0B", "A\x0c->B"]
 
 
 def _density_ok(k1, k2):
@@ -76,7 +77,7 @@ def _density_ok(k1, k2):
 
 def density_keys_fs(k1: int, k2: int) -> bool:
   """
-  pre: 0 <= k1 < 8 and 0 <= k2 < 8
+  pre: 0 <= k1 < 10 and 0 <= k2 < 10
   post: _
   """
   a, b = concrete(DENS_KEYS[k1]), concrete(DENS_KEYS[k2])
@@ -108,7 +109,7 @@ def embed_keys(k1: int, k2: int, density: bool) -> bool:
     return _embed_ok(a, b, sec)
 
 
-SIGS = ["f(r,A)", "f(r, A)", "f (r,A)", "f(r,B)", "f( r , A )", "g(r,A)"]
+SIGS = ["f(r,A)", "f(r, A)", "f (r,A)", "f(r,B)", "f( r , A )", "g(r,A)", "f(r,\xa0A)", "f(\x0cr,A)"]
 
 
 def _forms_ok(k1, k2):
@@ -124,7 +125,7 @@ def _forms_ok(k1, k2):
 
 def form_signatures(k1: int, k2: int) -> bool:
   """
-  pre: 0 <= k1 < 6 and 0 <= k2 < 6
+  pre: 0 <= k1 < 8 and 0 <= k2 < 8
   post: _
   """
   # a custom form label may be defined once, however its signature is spaced or parameterised
